@@ -69,8 +69,9 @@ impl<E: Endianness, BW: BitWrite<E>, const PRINT: bool> BitWrite<E>
     }
 
     fn flush(&mut self) -> Result<usize, Self::Error> {
+        // The bits flushed from the buffer of the underlying writer have
+        // already been counted when they were written
         self.bit_write.flush().inspect(|x| {
-            self.bits_written += *x;
             if PRINT {
                 eprintln!("flush() = {} (total = {})", x, self.bits_written);
             }
